@@ -46,6 +46,13 @@ CHECKS = {
             "its own bubble with a library frame (Obs.tla rule goroutine-leak).", "8 C16"),
     "C17": ("model_checking", "Obs.tla rules with-predecessor, successor-not-shown, queued-never-shown, priority hand-over (order), hang.", "8 C17"),
     "C18": ("model_checking", "Obs.tla rules popped-not-on-top, order, last-row-not-final on pop-completed programs; Term.tla for the screen.", "8 C18"),
+    "C19": ("model_checking", "Proxy.tla: the wrapped value is a script of (n, err) results with capabilities; invariants Transparent, Accounted, "
+            "NeverOver, AllSamples hold on the reference machine (TLC); every terminal case is executed on the real ProxyReader / ProxyWriter and "
+            "compared (results, forwarded Close, offered fast path, Bar.Current, samples seen by a recording moving average).", "8 C19"),
+    "C20": ("model_checking", "Decor.tla: the EwmaUpdate accumulator with the conservation invariant (time received = time accounted + carried), "
+            "unit selection for symbolic byte counts, the h/m/s split and exact percentages, checked by TLC; every terminal case is executed on "
+            "the real decorators (samples through a real bar and 0/1/3 wrappers into a recording moving average; printed numbers parsed back and "
+            "compared in exact arithmetic; NaN/Inf/panic and reported-width mismatches are violations; freeze after completion on a fake clock).", "8 C20"),
 }
 
 TECH0 = {p: "TLA+ trace validation (TLC on Obs.tla) of gate-scheduled executions of the real library; MPBCore.tla model checking"
@@ -54,6 +61,8 @@ TECH = dict(TECH0)
 TECH["C10"] = "TLC linearizability search (BarLin.tla over BarState.tla) on recorded histories; Go race detector on free-running workers"
 TECH["C07"] = "TLC model checking of Fill.tla (liveness + invariants) and Row.tla; replay of the TLC-computed tables on the real fillers"
 TECH["C08"] = "TLC evaluation of FillArith.tla over a grid; table replay at int64 scales; exact-arithmetic oracle on random int64 inputs"
+TECH["C19"] = "TLC enumeration of Proxy.tla (reference machine + invariants); every terminal case replayed on the real proxies"
+TECH["C20"] = "TLC checking of Decor.tla (conservation of sample time, unit selection, h/m/s split); every case replayed on the real decorators and formatter types"
 TECH["C09"] = "TLC model checking of BarState.tla + replay of its TLC-emitted transition relation on the real Bar"
 TECH["C11"] = "TLC model checking of BarState.tla + replay of its transition relation; TLA+ trace validation (Obs.tla) of gate-scheduled executions"
 
